@@ -64,6 +64,10 @@ func (e *retryEngine) Gen(rng *rand.Rand, tier string, n int, emit func(string))
 	emit("t1a0c1 P si start dial+:10 ack+:0 sub:61.1,62.0" + tail)
 	emit("t0a1c1 P - start dial+:10 ack+:0 sub:61.1 sub:62.2 unsub:61 close" + tail)
 	emit("t0a0c1 P - handle:1 start dial+:10 ack+:0:7.1 in:8:0 handle:2 in:9:1 close dial+:20 ack+:1:10.1 in:11:1")
+	// Handle while a CONNECT handshake is in progress (first connection / a reconnect): the connection being established gets it
+	emit("t0a0c1 P - handle:1 start dial+:10 handle:2 ack+:0:7.1 in:8:0")
+	emit("t0a0c1 P - handle:1 start dial+:10 ack+:0 in:6:1 close dial+:20 handle:3 ack+:1:10.1 in:11:1 handle:2 in:12:0")
+	emit("t0a0c1 P - start dial+:10 handle:1 ack+:0 in:6:1 bad dial+:20 handle:2 ack+:0:10.0 in:11:1")
 	emit("t0a0c1 P - pub:1:1 pub:2:0 sub:61.1 start dial- dial- dial+:65533 ack- dial+:65534 ack0 dial+:65533 ack+:0 pub:3:2 pub:4:1")
 	emit("t0a0c1 P lr,wf,la start dial+:10 ack+:0 pub:1:1 pub:2:2 pub:3:0 pub:4:1" + tail)
 	emit("t0a0c1 P - start dial+:10 ack+:0 pub:1:1 disc pub:2:1")
@@ -329,7 +333,14 @@ func genRetryScript(rng *rand.Rand) string {
 				evs = append(evs, fmt.Sprintf("handle:%d", 1+rng.Intn(3)))
 			}
 		default:
-			evs = append(evs, fmt.Sprintf("dial+:%d", idStart), "ack+:1")
+			evs = append(evs, fmt.Sprintf("dial+:%d", idStart))
+			if rng.Intn(3) == 0 {
+				evs = append(evs, fmt.Sprintf("handle:%d", 1+rng.Intn(3))) // Handle during the handshake
+				inb++
+				evs = append(evs, fmt.Sprintf("ack+:1:%d.%d", inb, rng.Intn(2)))
+			} else {
+				evs = append(evs, "ack+:1")
+			}
 			idStart += 100
 		}
 	}
